@@ -3,3 +3,5 @@ import FsVerif.Model.Basic
 import FsVerif.Model.PosStore
 import FsVerif.Model.BufStore
 import FsVerif.Model.PrioReq
+import FsVerif.Model.Node.Source
+import FsVerif.Model.Node.Machine
